@@ -16,6 +16,7 @@
 #include <stdlib.h>
 #include <dirent.h>
 #include <string.h>
+#include <stddef.h>
 #include <errno.h>
 
 typedef struct {
@@ -26,13 +27,68 @@ typedef struct {
 	dev_t device;
 	int state;
 	DIR *dir;
+
+	/* all entries of the directory, sorted by name */
+	struct dirent *list;
+	size_t list_count;
+	size_t list_index;
+	bool have_list;
 } unix_dir_iterator_t;
+
+static int compare_dirent(const void *lhs, const void *rhs)
+{
+	return strcmp(((const struct dirent *)lhs)->d_name,
+		      ((const struct dirent *)rhs)->d_name);
+}
+
+static int read_sorted_list(unix_dir_iterator_t *it)
+{
+	size_t max = 0;
+
+	for (;;) {
+		struct dirent *ent, *new;
+
+		errno = 0;
+		ent = readdir(it->dir);
+
+		if (ent == NULL) {
+			if (errno != 0)
+				return SQFS_ERROR_IO;
+			break;
+		}
+
+		if (it->list_count == max) {
+			max = (max == 0) ? 64 : (max * 2);
+
+			new = realloc(it->list, max * sizeof(*new));
+			if (new == NULL)
+				return SQFS_ERROR_ALLOC;
+
+			it->list = new;
+		}
+
+		memset(it->list + it->list_count, 0, sizeof(*ent));
+		memcpy(it->list + it->list_count, ent,
+		       offsetof(struct dirent, d_name) +
+		       strlen(ent->d_name) + 1);
+		it->list_count += 1;
+	}
+
+	if (it->list_count > 0) {
+		qsort(it->list, it->list_count, sizeof(it->list[0]),
+		      compare_dirent);
+	}
+
+	it->have_list = true;
+	return 0;
+}
 
 static void dir_destroy(sqfs_object_t *obj)
 {
 	unix_dir_iterator_t *it = (unix_dir_iterator_t *)obj;
 
 	closedir(it->dir);
+	free(it->list);
 	free(it);
 }
 
@@ -84,18 +140,20 @@ static int dir_next(sqfs_dir_iterator_t *base, sqfs_dir_entry_t **out)
 	if (it->state != 0)
 		return it->state;
 
-	errno = 0;
-	it->ent = readdir(it->dir);
+	/* the order readdir() returns entries in is file system specific */
+	if (!it->have_list) {
+		it->state = read_sorted_list(it);
+		if (it->state != 0)
+			return it->state;
+	}
 
-	if (it->ent == NULL) {
-		if (errno != 0) {
-			it->state = SQFS_ERROR_IO;
-		} else {
-			it->state = 1;
-		}
-
+	if (it->list_index >= it->list_count) {
+		it->ent = NULL;
+		it->state = 1;
 		return it->state;
 	}
+
+	it->ent = it->list + it->list_index++;
 
 	if (fstatat(dirfd(it->dir), it->ent->d_name,
 		    &it->sb, AT_SYMLINK_NOFOLLOW)) {
